@@ -189,6 +189,15 @@ func observe(base, mode string, depth int, targets []string) ([]Obs, error) {
 	return observeTransition(base, depth, targets)
 }
 
+// removeLinks removes the links a previous observe call left in base so that
+// the layout can be reused for the next case.
+func removeLinks(base string, depth, n int) {
+	_, linkDir, _, _ := layout(base, depth)
+	for i := 0; i < n; i++ {
+		os.Remove(filepath.Join(linkDir, linkName(i)))
+	}
+}
+
 // confirm appends the kernel's opinion to an escape violation.
 func confirm(tb testing.TB, c *Case, violation string) string {
 	scratch, err := os.MkdirTemp("", "c16-confirm-")
@@ -214,6 +223,13 @@ func judgeOne(tb testing.TB, c *Case) (violation string, nontrivial bool, obs Ob
 		tb.Fatalf("temp dir: %v", err)
 	}
 	defer os.RemoveAll(base)
+	return judgeIn(tb, base, c)
+}
+
+// judgeIn is judgeOne on a reusable base directory (one per mode and depth);
+// the link is removed again afterwards.
+func judgeIn(tb testing.TB, base string, c *Case) (violation string, nontrivial bool, obs Obs) {
+	defer removeLinks(base, c.Depth, 1)
 	o, err := observe(base, c.Mode, c.Depth, []string{c.Target})
 	if err != nil {
 		return "harness could not observe the case: " + err.Error(), false, Obs{}
@@ -410,7 +426,13 @@ func TestRandomTargets(t *testing.T) {
 	rec := ev.New(t, prop, "random-targets",
 		"rapid: targets of 1..9 components drawn from names, '.', '..', empty, colon-, backslash- and multi-byte-containing names, optional leading '/', plus targets padded to 240..256 bytes; link depth 0..3; mode scan or transition on a real temp directory; "+rule)
 	_, known := reportKnownIfListed(t, rec)
-	ev.Check(t, rec, 5000, 40000, func(rt *rapid.T) {
+	bases := map[string]string{}
+	for _, m := range []string{"scan", "transition"} {
+		for d := 0; d <= 3; d++ {
+			bases[fmt.Sprint(m, d)] = t.TempDir()
+		}
+	}
+	ev.Check(t, rec, 5000, 30000, func(rt *rapid.T) {
 		c := &Case{
 			Mode:   rapid.SampledFrom([]string{"scan", "transition"}).Draw(rt, "mode"),
 			Depth:  rapid.IntRange(0, 3).Draw(rt, "depth"),
@@ -420,7 +442,7 @@ func TestRandomTargets(t *testing.T) {
 			rec.Excluded(ClassEmptyComponent)
 			return
 		}
-		v, nt, o := judgeOne(t, c)
+		v, nt, o := judgeIn(t, bases[fmt.Sprint(c.Mode, c.Depth)], c)
 		if !o.Present && v == "" {
 			rec.Class("not-creatable-on-disk")
 			return
